@@ -1080,10 +1080,10 @@ Proof.
   destruct H as [H|H].
   - subst c. discriminate.
   - destruct c as [c0|x|x y|a b|i|i|a b|tg]; try discriminate; try (now apply IH).
-    2:{ destruct (has_prefix sqlite_autoindex i); [discriminate|now apply IH]. }
-    destruct (rc_hasidx c0 || rc_hasfk c0); [discriminate|].
-    destruct (rc_dkind c0) as [|[]|]; try discriminate;
-      (destruct (rc_gen c0 && rc_stored c0); [discriminate|now apply IH]).
+    + destruct (rc_hasidx c0 || rc_hasfk c0); [discriminate|].
+      destruct (rc_dkind c0) as [|[]|]; try discriminate;
+        (destruct (rc_gen c0 && rc_stored c0); [discriminate|now apply IH]).
+    + destruct (has_prefix sqlite_autoindex i); [discriminate|now apply IH].
 Qed.
 
 Lemma alterable_no_wrap m c : alterable m = true -> ifnull_wrapped m c = false.
